@@ -193,6 +193,7 @@ def make_client(cfg: Cfg, tape: list, cls=None):
         from twisted.internet.defer import Deferred
         c.deferred = Deferred()
         c.deferred.addCallback(c._captureSave, io.BytesIO(), format="png")
+        c.deferred.addErrback(lambda f: None)      # a failed save is visible in the log; keep stderr quiet
     return c
 
 
@@ -380,12 +381,14 @@ def run_script_real(cfg: Cfg, items):
                     c.dataReceived(it[1])
                 elif it[0] == "capture":
                     fp = io.BytesIO()
-                    c.captureScreen(fp, bool(it[1]), format="png")
+                    d = c.captureScreen(fp, bool(it[1]), format="png")
+                    d.addErrback(lambda f: None)    # a failed capture is looked at through the log, not stderr
                     captures.append((fp, None, len(c.log)))
                 else:
                     fp = io.BytesIO()
                     _, x, y, w, h = it
                     d = c._capture(fp, False, x, y, x + w, y + h, format="png")
+                    d.addErrback(lambda f: None)
                     captures.append((fp, (x, y, w, h), len(c.log)))
             except Exception as e:  # noqa: BLE001
                 crashed = type(e).__name__ + ": " + str(e)[:80]
